@@ -367,6 +367,9 @@ def run_shard(shard):
             lists += [list(c) for c in itertools.combinations([0, 1, 6, 8, 253], L)]
         for L in range(5, 9):
             lists += [list(c) for c in itertools.combinations(range(8), L)]
+        # long lists up to the longest there is (all 254 device types 0..253) and lists around the top of the range
+        lists += [list(range(254)), list(range(1, 254)), list(range(253)), list(range(0, 254, 2)), list(range(200, 254)), [252, 253], [0, 253], [253]]
+        lists += [[t] for t in range(0, 254, 11)] + [[251], [252]]
         for t in lists:
             r = check_dt_list(res, t)
             res["evaluations"] += 1
